@@ -201,6 +201,46 @@ def c_unary(ctx, case):
     ctx.count("inv_checked")
 
 
+@check("C18.vecinv")
+def c_vecinv(ctx, case):
+    """Inverse of a VECTOR with several components (inversion is not linear: the basis blades
+    say nothing about it): v.inv()*v == v*v.inv() == 1 whenever v.v = sum g_i c_i^2 != 0."""
+    g, coeffs = case
+    sp = space_for(g)
+    ref = cl.clean({(i,): c for i, c in enumerate(coeffs) if not _is0(c)})
+    if len(ref) < 1:
+        return
+    v = mk(sp, ref)
+    nsq = sum(g[i] * c * c for i, c in enumerate(coeffs))
+    ctx.case(None)
+    ctx.count("vector_inverses")
+    try:
+        inv = v.inv()
+    except ZeroDivisionError:
+        if nsq != 0:
+            ctx.fail("C18.vecinv", case, "vecinv:refused-non-null",
+                     f"metric diag{g}: inv({ref}) raised ZeroDivisionError, v.v = {nsq}")
+        ctx.count("inv_null_refused")
+        return
+    except Exception as ex:  # noqa: BLE001
+        ctx.fail("C18.vecinv", case, f"vecinv:raised:{type(ex).__name__}",
+                 f"inv({ref}) (metric {g}) raised {type(ex).__name__}: {ex}")
+        return
+    if nsq == 0:
+        ctx.fail("C18.vecinv", case, "vecinv:null-vector-accepted",
+                 f"metric diag{g}: inv of the null vector {ref} returned {to_ref(inv)}")
+        return
+    want = cl.clean({k: c / nsq for k, c in ref.items()})
+    if not same(want, inv):
+        ctx.fail("C18.vecinv", case, f"vecinv:value:{len(ref)}components",
+                 f"metric diag{g}: inv({ref}) = {to_ref(inv)}, expected v/(v.v) = {want}")
+        return
+    for nm, prod in (("inv(v)*v", inv * v), ("v*inv(v)", v * inv), ("v/v", v / v)):
+        if not same({(): 1}, prod):
+            ctx.fail("C18.vecinv", case, f"vecinv:{nm}",
+                     f"metric diag{g}: {nm} = {to_ref(prod)} for v = {ref}")
+
+
 def rand_mv(rng, n, symbolic=False, nterms=None, ints=False):
     blades = cl.all_blades(n)
     k = nterms or rng.randint(0, min(len(blades), 5))
@@ -261,6 +301,15 @@ def c_eqhash(ctx, case):
         ("1*A", 1 * mA, dict(A)), ("A*1", mA * 1, dict(A)), ("--A", -(-mA), dict(A)),
         ("A.map(id)", mA.map(lambda c: c), dict(A)),
         ("A.map(c*0)", mA.map(lambda c: c * 0), {}),
+        # history: the hash of A is computed (and memoized) BEFORE the derived object is made
+        ("rev(A) after hash(A)", (hash(mA), mA.rev())[1], cl.rev(A)),
+        ("rev(A) built afresh", mk(sp, cl.rev(A)), cl.rev(A)),
+        ("invol(A) after hash(A)", (hash(mA), mA.invol())[1], cl.invol(A)),
+        ("invol(A) built afresh", mk(sp, cl.invol(A)), cl.invol(A)),
+        ("(-A) after hash(A)", (hash(mA), -mA)[1], cl.scale(-1, A)),
+        ("(-A) built afresh", mk(sp, cl.scale(-1, A)), cl.scale(-1, A)),
+        ("A.map(2c) after hash(A)", (hash(mA), mA.map(lambda c: 2 * c))[1], cl.scale(2, A)),
+        ("2A built afresh", mk(sp, cl.scale(2, A)), cl.scale(2, A)),
         ("MV(0)", MultiVector(0, sp), {}),
         ("MV({0: 0})", MultiVector({0: 0}, sp), {}),
         ("MV(explicit zero term)", MultiVector({**mA.data, (2 ** len(g) - 1): 0}, sp)
@@ -347,6 +396,9 @@ def workload(ctx):
         if i < 2:
             ctx.sample("bilinearity", f"metric diag{g}: ({a}*A + {b}*B) o C with A={A} B={B} C={C}")
         ctx.run("C18.bilinear", (g, A, B, C, a, b, sym))
+        coeffs = [rng.choice([F(0), F(1), F(-2), F(3), F(1, 2)]) for _ in range(n)]   # exact: int/int would round
+        ctx.case(("vecinv", g, tuple(map(str, coeffs))), sum(1 for c in coeffs if c) >= 2, n=0)
+        ctx.run("C18.vecinv", (g, coeffs))
         A2, B2 = rand_mv(rng, n, False), rand_mv(rng, n, False)
         ctx.case(("eqhash", g, normal.typed_key((A2, B2))), True, n=0)
         ctx.run("C18.eqhash", (g, A2, B2))
